@@ -112,6 +112,20 @@ def gen_nonretriable(rng, sid):
     return sc
 
 
+def gen_cancelled_futures(rng, sid):
+    """the application abandons futures it was handed (cancel() / wait_for timeout) while their batches are queued,
+    in flight or in retry backoff - for send() and for send_batch(): delivery goes on, flush()/stop() still wait for
+    everything, and no other record is affected"""
+    sc = gen(rng, sid)
+    for t in sc["tasks"]:
+        for it in t:
+            if rng.random() < 0.4:
+                it["cancel_after"] = rng.choice([0, 1, 2, 5, 20, 60, 300, 1200])
+    if not sc.get("faults"):
+        sc["faults"] = {str(rng.randrange(1, 6)): {"kind": "error", "code": rng.choice(prodsim.RETRIABLE_CODES)}}
+    return sc
+
+
 def gen_parked_stop(rng, sid):
     """stop() while send() calls are parked on a full batch that cannot be drained (its partition has a batch in
     flight): whatever send() returned a future for must still be resolved; a parked send() may only raise"""
@@ -210,6 +224,16 @@ def monitor(ck, sc, r):
         if "send_exc" in s:
             continue
         st = s.get("state")
+        if s.get("user_cancelled"):
+            # the application cancelled the future it was handed (documented: that does not stop the record from
+            # being sent): the record is still delivered, once, and nobody else's record suffers (checked below
+            # on the other sends)
+            if retriable_only and sc["idempotent"] and s.get("batch_index") != -1:
+                n_log = sum(1 for x in r["logs"][str(s["p"])]["records"] if x["rid"] == s["rid"])
+                if n_log == 0 or (sc["idempotent"] and n_log > 1):
+                    viol(f"a record whose returned future the application cancelled is in the log {n_log} times",
+                         {"send": s})
+            continue
         if st in ("pending", "cancelled"):
             viol("a send future is still unresolved after the quiet period", {"send": s})
             continue
@@ -303,6 +327,8 @@ def run(ck: Check):
         scs.append(gen_parked_stop(rng, 100000 + i))
     for i in range(ck.n(40, 400)):
         scs.append(gen_nonretriable(rng, 200000 + i))
+    for i in range(ck.n(40, 400)):
+        scs.append(gen_cancelled_futures(rng, 300000 + i))
     results = prodsim.run_scenarios(scs, timeout=ck.n(600, 2400))
     nbad = 0
     hist = {"acks0": 0, "idempotent": 0, "produce_version_cap": {}, "log_append_time": 0, "flush": 0, "failed_runs": 0}
